@@ -437,7 +437,7 @@ def constant_pages(lines: List[str], names: List[str]) -> List[Tuple[str, str]]:
     return out
 
 
-LIT_COMPAT = "from pkg import engine\nfrom typing import Literal, Optional\n\ndef describe(e: 'engine.K', how: Literal['x'] = 'x') -> str: ...\n"
+LIT_COMPAT = "from pkg import engine\nfrom typing import Literal, Optional, Annotated\n\ndef describe(e: 'engine.K', how: Literal['x'] = 'x') -> str: ...\n"
 
 
 def shown_literal_annotations(setup: int, sources: List[str]) -> List[Tuple[str, bool]]:
@@ -446,7 +446,7 @@ def shown_literal_annotations(setup: int, sources: List[str]) -> List[Tuple[str,
     from pydoctor import model, node2stan
     from pydoctor.epydoc.markup._pyval_repr import colorize_inline_pyval
     head = {1: "import typing as t\n", 2: "from pkg import compat as t\n", 3: "from pkg import compat as t\n",
-            4: "from typing import Literal, Optional\n"}[setup]
+            4: "from typing import Literal, Optional, Annotated\n"}[setup]
     engine = head + "class K: 'doc'\n" + "".join(f"v{n}: {src} = 0\n" for n, src in enumerate(sources))
     system = model.System()
     system.options.verbosity = -3
@@ -987,6 +987,73 @@ def run_history(ctx: Ctx, sources: List[str], trees_file: Any, fixed_ids: List[s
     reset_shared_nodes()
 
 
+# ----------------------------------------------------------- one object under two spellings (ExprNames.tla)
+SPELL = {"short": "Base", "dotted": "base.Base"}
+NAMES_CFG = "SPECIFICATION Spec\nCONSTRAINT Emit\nINVARIANT ShownAsWritten\n"
+
+
+def run_names_history(spell: Dict[str, str], order: List[str]) -> List[Tuple[str, str, str]]:
+    """Build pkg.base / pkg.user with the real builder, render the three sites of pkg.user in the given order through
+    the real page functions; returns (site, source of the piece, text shown for it)."""
+    from pydoctor import model
+    from pydoctor.templatewriter import pages
+    from pydoctor.stanutils import flatten
+    import html as _html
+    import re as _re
+    f, g, b = (SPELL[spell[k]] for k in ("f", "g", "B"))
+    user = (f"from pkg import base\nfrom pkg.base import Base\n\ndef f(x: {f}) -> {f}:\n    'doc'\n\n"
+            f"def g(y: {g} = {g}.DEFAULT):\n    'doc'\n\nclass B({b}):\n    'doc'\n")
+    system = model.System()
+    system.options.verbosity = -3
+    builder = system.systemBuilder(system)
+    builder.addModuleString("", "pkg", is_package=True)
+    builder.addModuleString("class Base:\n    'doc'\n    DEFAULT = None\n", "base", parent_name="pkg")
+    builder.addModuleString(user, "user", parent_name="pkg")
+    builder.buildModules()
+    mod = system.allobjects["pkg.user"]
+    text = lambda stan: _html.unescape(_re.sub(r"<[^>]*>", "", flatten(stan)))
+    sources = {"f": f"def f(x: {f}) -> {f}: ...", "g": f"def g(y: {g} = {g}.DEFAULT): ...", "B": f"class B({b}): ..."}
+    out = []
+    for site in order:
+        if site == "B":
+            shown = "class B" + text(pages.format_class_signature(mod.contents["B"])) + ": ..."
+        else:
+            shown = f"def {site}" + text(pages.format_signature(mod.contents[site])) + ": ..."
+        out.append((site, sources[site], shown))
+    return out
+
+
+def run_names(ctx: Ctx, stats: Dict[str, int]) -> None:
+    r = ctx.tlc("ExprNames", NAMES_CFG, workers="auto", extra=["-continue"], timeout=600)
+    errs = [e for e in r.errors if "The behavior up to this point is" not in e]
+    if errs or (r.rc != 0 and not r.violated):
+        raise MachineryError(f"TLC failed on ExprNames: {errs[:3]}\n" + "\n".join(r.out.splitlines()[-25:]))
+    ctx.extra["names_design_level_invariants_violated"] = sorted(set(r.violated))
+    for rec in r.printed:
+        spell, order = dict(rec["spell"]), list(rec["order"])
+        ctx.traces += 1
+        stats["name_histories"] += 1
+        for k, (site, src, shown) in enumerate(run_names_history(spell, order)):
+            want = ast.dump(ast.parse(src))
+            try:
+                same = ast.dump(ast.parse(shown)) == want
+            except SyntaxError:
+                same = False
+            # the model: the site shows the spelling written there (rec["shown"][k].as == spell[site])
+            if rec["shown"][k]["as"] != spell[site]:
+                raise MachineryError("ExprNames.tla emitted a behaviour that breaks its own contract")
+            if not same:
+                stats["drift"] += 1
+                stats["violations"] += 1
+                ctx.drift_note({"spellings": spell, "order": order, "site": site, "model": src, "real": shown})
+                ctx.violation({"invariant": "ShownAsWritten", "origin": "names", "spell": spell, "order": order, "site": site,
+                               "input": src, "observed": {"shown": shown, "rendered_before": order[:k]},
+                               "expected": "the piece reads back as written, whatever was rendered before",
+                               "key": f"names:{site}:{spell[site]}:{sorted(set(spell[x] for x in order[:k]))}"})
+        if stats["name_histories"] % 20 == 1:
+            ctx.sample({"spellings": spell, "order": order})
+
+
 # --------------------------------------------------------------------- re.compile(<pattern>) (ExprRe.tla)
 RE_ATOM_TEXT = {"a": "a", "b_plus": "b+", "a_star": "a*", "a_1_or_more": "a{1,}", "alt": "a|b", "group": "(a)",
                 "nc_alt": "(?:a|b)", "set_ab": "[ab]", "set_a_hyphen_z": "[a\\-z]", "set_hyphen_a": "[\\-a]", "range_az": "[a-z]",
@@ -1201,7 +1268,7 @@ def run(ctx: Ctx) -> int:
     stats = {k: 0 for k in ("seen", "drift", "design_bad", "violations", "incomplete", "necessity_checked",
                             "design_bad_but_real_ok", "strings", "layout", "layout_complete", "layout_wrapped",
                             "layout_cut", "layout_multiline_text", "segments", "segments_wrapped",
-                            "strings_html", "histories", "histories_poisoned", "regexes", "regexes_presented")}
+                            "strings_html", "histories", "histories_poisoned", "regexes", "regexes_presented", "name_histories")}
     design_violated: List[str] = []
     # ---- inputs that do not depend on the code under test, then all TLC runs that only need those
     ntrees = 1500 if ctx.quick else 30000
@@ -1229,6 +1296,7 @@ def run(ctx: Ctx) -> int:
     pre.submit("Expr", expr_cfg("lit", d3_cmp, open_ids, fixed_ids), **ex)
     pre.submit("ExprStr", strings_cfg(ctx, open_ids, fixed_ids), **ex)
     pre.submit("ExprRe", regex_cfg(ctx, open_ids, fixed_ids), **ex)
+    pre.submit("ExprNames", NAMES_CFG, **ex)
     maxll, maxml, extra_ll = layout_bounds(ctx)
     pre.submit("ExprLayout", layout_cfg("enum", maxll, maxml, fixed_ids, extra_ll),
                env={"LAYOUT_FILE": str(ctx.scratch / "layout_trees.json")}, **ex)
@@ -1292,6 +1360,8 @@ def run(ctx: Ctx) -> int:
     ctx.extra["values_built_by_augmented_assignment"] = {"cases": len(aug), "kinds": kinds}
     # ---- string / bytes literals (ExprStr.tla)
     run_strings(ctx, open_ids, fixed_ids, stats)
+    # ---- one class named under two spellings at three sites of a module, rendered in every order (ExprNames.tla)
+    run_names(ctx, stats)
     # ---- re.compile(<pattern>): presented or ordinary call, same regular expression (ExprRe.tla)
     run_regex(ctx, open_ids, fixed_ids, stats)
     # ---- line length / line count: wrapping, truncation, is_complete (ExprLayout.tla)
@@ -1345,6 +1415,16 @@ def replay(ctx: Ctx, path: str) -> int:
         got = literal_value(shown)
         bad = not (complete and type(got) is type(value) and got == value)
         print(f"replay: value {w['input']} shown {shown!r} ->", "still violated" if bad else "holds now")
+    elif w.get("invariant") == "ShownAsWritten":
+        res = run_names_history(w["spell"], w["order"])
+        bad = False
+        for site, src, shown in res:
+            try:
+                bad = bad or ast.dump(ast.parse(shown)) != ast.dump(ast.parse(src))
+            except SyntaxError:
+                bad = True
+        print(f"replay: spellings {w['spell']} rendered in the order {w['order']} ->", [x[2] for x in res],
+              "still violated" if bad else "holds now")
     elif w.get("invariant") == "RegexMeaning":
         got, shown, why = judge_regex(w["input"])
         ok = got is not None and same_regex(w["input"], got)[0]
